@@ -444,10 +444,11 @@ public:
 
         operator bool() {
             if (!this->await_ready()) {
-                return this->wait();
-            } else {
-                return this->await_resume();
+                //co_awaiter::wait() would call co_awaiter::await_resume(), which returns the
+                //previous value without fetching the new one, so only block here
+                this->sync();
             }
+            return this->await_resume();
         }
         bool await_resume() {
             return this->_owner.check_next();
